@@ -573,6 +573,26 @@ def do_step(w, ev):
                         for k, v in kw.items():
                             setattr(crop, k, v)
                     crop.sow_samples(len(cfg["cases"]), combos={nm: feeder(nm) for nm in w.case_names}, verbosity=0)
+            elif a in ("grow", "grow_set", "grow_missing") and w.variant.get("subprocess"):
+                # a fresh OS process that only knows the crop's name and directory
+                import subprocess
+                import sys as _sys
+                ids = [args[0]] if a == "grow" else (list(args[0]) if a == "grow_set" else None)
+                code = ("import sys; sys.path.insert(0, %r); import xyzpy\n"
+                        "assert xyzpy.__file__.startswith(%r), xyzpy.__file__\n"
+                        "c = xyzpy.Crop(name='vxcrop', parent_dir=%r)\n" % (common.REPO, common.REPO, w.tmp))
+                if a == "grow" and args[1] == "fn":
+                    code += "xyzpy.grow(%d, crop=c, verbosity=0)\n" % args[0]
+                elif ids is not None:
+                    code += "c.grow(%r, verbosity=0)\n" % (tuple(ids),)
+                else:
+                    code += "c.grow_missing(verbosity=0)\n"
+                p = subprocess.run([_sys.executable, "-W", "ignore", "-c", code], capture_output=True, text=True,
+                                   env=dict(os.environ, TQDM_DISABLE="1"))
+                if p.returncode != 0:
+                    if "vx-fail" in p.stderr:
+                        raise ValueError("vx-fail (in child process)")
+                    raise RuntimeError("child process failed: " + p.stderr[-400:])
             elif a == "grow":
                 i, via = args
                 if via == "fn":
